@@ -717,6 +717,12 @@ class AProc(ScriptedMixin, Process):
                 'topology': topo, 'initial_state': {'vars': decode_value(copy.deepcopy(op[3]))}}]}
         elif kind == 'add_leaf' and s.get('tokens'):
             up['tokens'] = {'_add': [{'key': self._fresh(k), 'state': op[1]}]}
+        elif kind == 'add_leaf_existing' and s.get('tokens'):
+            # an `_add` under a key the store holds - whatever value it holds (0 and False
+            # are values too) - must be rejected
+            kids = sorted(states['tokens'].keys())
+            if kids:
+                up['tokens'] = {'_add': [{'key': kids[op[1] % len(kids)], 'state': op[2]}]}
         elif kind == 'del_leaf' and s.get('tokens'):
             kids = sorted(states['tokens'].keys())
             if kids:
